@@ -76,7 +76,13 @@ def gen_plan(rng, tier, config, opts):
             o['mlen'] = 32              # the pre-hashed interface takes a SHA-256 digest
         lines.append('SESSION %d %s %s' % (sid, name, ' '.join('%s=%s' % kv for kv in o.items())))
         sigpts = [f for f, t in sp.fields.items() if t in ('g1', 'g2', 'ec') and f not in KEYFIELDS]
-        if faulty and len(sigpts) >= 2 and rng.chance(0.05):
+        allpts = [(f, t) for f, t in sp.fields.items() if t in ('g1', 'g2', 'ec')]      # target-group values are system parameters
+        if faulty and sp.prop == 'C05' and len(allpts) >= 2 and rng.chance(0.03):
+            # the trivial triple: every group element - key material included - is the identity.  It needs no key
+            # and no signer, so no verifier may accept it for any message.
+            for f, t in allpts:
+                lines.append('FAULT %d %s v_inf %d %d' % (sid, f, rng.below(100000), rng.below(256)))
+        elif faulty and len(sigpts) >= 2 and rng.chance(0.05):
             # a dishonest sender sets every point of the signature / proof to the identity at once
             for f in sigpts:
                 lines.append('FAULT %d %s v_inf %d %d' % (sid, f, rng.below(100000), rng.below(256)))
@@ -281,6 +287,12 @@ class V:
                          '%s session %d (faults: %s): %s\n%s' % (self.s.scheme, self.s.sid, fl, detail, '\n'.join(self.s.lines)[:2500]))
 
 
+def all_identity(s):
+    """True if every group element of the session (keys and signature) was replaced by the identity."""
+    pts = [r for r in s.m.values() if r['type'] in ('g1', 'g2', 'ec')]
+    return len(pts) >= 2 and all(r['kind'] == 'v_inf' for r in pts)
+
+
 def generic_sig_oracle(ver_name='ver', authenticated=None, ok_malleations=()):
     """Metamorphic oracle for a signature scheme: all fields unchanged in value => ACCEPT;
     some authenticated field changed => not ACCEPT (up to listed legal malleations)."""
@@ -297,6 +309,11 @@ def generic_sig_oracle(ver_name='ver', authenticated=None, ok_malleations=()):
         changed = [f for f in fields if s.changed(f)]
         out.evals += 1
         out.keys.add((s.scheme, tuple(s.faults()), got, bool(changed)))
+        if all_identity(s):
+            out.fault('all-identity-triple')
+            if got == '1':
+                v.bad('all-identity|expected=reject|got=accept', 'the triple in which every group element is the identity was accepted')
+            return
         if any(f in ('pk',) for f in changed) and any(f not in ('pk',) for f in changed):
             out.probe('key-and-signature-both-substituted')
             return
